@@ -18,6 +18,12 @@ def make_row(hs, label):
         return {'x': 1}
     if label == 'A2':
         return {'id': 'a', 'dup': 1}
+    if label == 'N1M1':
+        return {'id': 1000001}         # numeric ids whose usual short renderings (%g, 6 significant digits) coincide
+    if label == 'N1M2':
+        return {'id': 1000002}
+    if label == 'F25':
+        return {'id': 2.5}
     if label == 'XF':
         return {'x': 1.0000004}        # differs from X by less than any display tolerance: still another row
     if label == 'XT':
@@ -67,6 +73,12 @@ def row_label(hs, row):
         return 'B'
     if i == 7:
         return 'I7'
+    if i == 1000001:
+        return 'N1M1'
+    if i == 1000002:
+        return 'N1M2'
+    if i == 2.5 and isinstance(i, float):
+        return 'F25'
     if isinstance(i, hs.Ref):
         return 'RD' if i.has_value else 'R'
     return '?'
@@ -91,7 +103,7 @@ class GridSpec(H.Spec):
 
     def fresh(self, root):
         hs = self.hs
-        if root[0] == 'fresh':
+        if root[0] in ('fresh', 'fresh-numeric'):
             g = hs.Grid(version='3.0', metadata={'m': 'meta'}, columns=[('id', []), ('x', [('u', 'kg')]), ('dup', [])])
             return g, []
         if root[0] == 'fresh-reordered':
@@ -117,7 +129,7 @@ class GridSpec(H.Spec):
         raise HarnessError(root)
 
     def derived_roots(self, g, model, hist, root):
-        if root[0] not in ('fresh', 'fresh-unversioned', 'fresh-reordered') or len(hist) > 3 or not model:
+        if root[0] not in ('fresh', 'fresh-unversioned', 'fresh-reordered', 'fresh-numeric') or len(hist) > 3 or not model:
             return []
         out = []
         n = len(model)
@@ -156,7 +168,7 @@ class GridSpec(H.Spec):
         ops.append(('pop_last',))
         for a, b in ((0, 1), (0, 2), (1, None), (None, None), (-1, None), (5, None), (1, 1)):
             ops.append(('delslice', a, b))
-        for r in ('A', 'E', 'B', 'X', 'A2', 'I7') + tuple(x for x in ('XF', 'XT') if x in self.ROWS):
+        for r in (('A', 'E', 'B', 'X', 'A2', 'I7') if 'A' in self.ROWS else tuple(self.ROWS)) + tuple(x for x in ('XF', 'XT') if x in self.ROWS):
             ops.append(('remove', r))
         ops += [('reverse',), ('clear',)]
         if self.LOOKUPS:
@@ -449,6 +461,30 @@ class C15Thorough(C15Quick):
     ROWS = ['E', 'A', 'A2', 'B', 'I7', 'R', 'RD', 'Z0', 'ZE', 'X']
 
 
+class C15Numeric(GridSpec):
+    """Numeric ids: ints beyond six digits and floats (their string form is the key, whatever their size)."""
+    prop = 'C15'
+    name = 'grid-numeric-ids'
+    ROOTS = [['fresh-numeric']]
+    ROWS = ['E', 'N1M1', 'N1M2', 'F25']
+    NONDICT = []
+
+    def lookup_keys(self):
+        return ['1000001', '1000002', '2.5', '1e+06', 'zz']
+
+    def ops(self, g, model):
+        return [o for o in GridSpec.ops(self, g, model) if o[0] not in ('extend', 'extend_gen')]
+
+
+def spec_for(prop, root):
+    r = root
+    while r and r[0] in ('slice', 'filter'):
+        r = r[1]
+    if r and r[0] == 'fresh-numeric':
+        return C15Numeric()
+    return C14Thorough() if prop == 'C14' else C15Thorough()
+
+
 SLICES = [(None, None, None), (0, 1, None), (1, None, None), (None, None, -1), (0, 2, None)]
 PAIR_OPS = [('append', 'A'), ('append', 'B'), ('append', 'I7'), ('append', 'R'), ('append', 'Z0'), ('insert', 0, 'A2'), ('insert', 0, 'B'), ('delitem', 0), ('delitem', -1),
             ('setitem', 0, 'B'), ('setitem', 0, 'E'), ('extend', ['B', 'I7']), ('reverse',), ('clear',), ('pop_last',)]
@@ -506,6 +542,10 @@ def run(ctx, prop):
     for part in pmap(aliasing_task, [(factory, c) for c in chunks(pair_states, ctx.jobs * 2)], ctx.jobs):
         st.merge(part)
     info['aliasing_states'] = len(pair_states)
+    if prop == 'C15':
+        st2, info2 = H.bfs(C15Numeric, depth=depth, seed=ctx.seed, jobs=ctx.jobs)
+        st.merge(st2)
+        info['numeric_ids'] = dict(info2, rows=C15Numeric.ROWS, lookup_keys=C15Numeric().lookup_keys())
     st.outcomes |= set(list(st.inputs)[:1000])
     spec = factory()
     return {
@@ -530,7 +570,7 @@ def replay(case, st, prop):
             if f['case']['op'] == case['op'] and f['case']['slice'] == case['slice'] and f['case']['side'] == case['side'] and f['case']['warm'] == case['warm']:
                 st.fail(f['symptom'], f['sig'], f['case'], f['detail'])
         return
-    spec = C14Thorough() if prop == 'C14' else C15Thorough()
+    spec = spec_for(prop, case['root'])
     root = case['root']
     hist = [tuple(o) for o in case['history']]
     g, model = spec.fresh(root)
